@@ -725,7 +725,7 @@ impl G {
                 if sz == 8 { dsts.push(self.rop(8, true)); }
                 dsts.push(Op::Reg(1)); // the count register itself
                 for d in dsts {
-                    for cnt in [0u64, 1, 2, (sz - 1) as u64, sz as u64, (sz + 1) as u64, 31, 32, 33, 63, 64, 0xff, self.r.below(256)] {
+                    for cnt in [0u64, 1, (sz - 1) as u64, sz as u64, (sz + 1) as u64, 33, 64, 0xff, self.r.below(256)] {
                         self.add("shift-imm", mn, sz, format!("(IShift {} {} {} (OImm {}))", c, sz, d.coq(), cnt), format!("{} {}, 0x{:x}", mn, d.text(sz), cnt), vec![d.clone()],
                             Enc { mode: m, opsz: sz, def64: false, pre: &[], opc: &[0xC0 + w], reg: Some(RegF::Digit(digit)), rm: Some((&d, sz == 8)), plusr: None, imm: imm_bytes(cnt, 1) }, cnt as i64);
                     }
@@ -765,6 +765,8 @@ impl G {
                 let w = if sz == 8 { 0 } else { 1 };
                 let sfx = match sz { 8 => "b", 16 => "w", 32 => "d", _ => "q" };
                 for (rc, rn, pre) in [("RNone", "", vec![]), ("RRep", "rep ", vec![0xF3u8]), ("RRepne", "repne ", vec![0xF2u8])] {
+                    // F2 on movs/stos/lods is a reserved encoding (the SDM defines repne for cmps/scas only)
+                    if rc == "RRepne" && !(mn == "cmps" || mn == "scas") { continue; }
                     self.add(if pre.is_empty() { "string" } else { "string-rep" }, &format!("{}{}{}", rn, mn, sfx), sz, format!("(IStr {} {} {})", c, sz, rc), format!("{}{}{}", rn, mn, sfx), vec![],
                         Enc { mode: m, opsz: sz, def64: false, pre: &pre, opc: &[opc + w], reg: None, rm: None, plusr: None, imm: vec![] }, 0);
                 }
@@ -964,6 +966,9 @@ fn sample(f: &Form, r: &mut Rng) -> Sample {
             let rnd = r.below(256);
             let c = *r.pick(&[0u64, 1, 2, (sz as u64).wrapping_sub(1), sz as u64, sz as u64 + 1, 31, 32, 33, 63, 64, 65, 0x80, 0xff, rnd]) & 0xff;
             s.g[1] = (s.g[1] & !0xff) | c;
+            // shld/shrd r/m16 with a masked count above 16: result and flags are undefined (SDM) and there is no
+            // Coq specification to say so: keep such counts out of the samples
+            if f.class == "nospec-shxd" && sz == 16 && (c & 0x1f) > 16 { s.g[1] = (s.g[1] & !0xff) | (c & 0x0f); }
         }
         "string" | "string-rep" => {
             let reg = if m64 && r.chance(1, 4) { HIGH } else { LOW };
@@ -1039,7 +1044,9 @@ fn sample(f: &Form, r: &mut Rng) -> Sample {
                 Some(o @ Op::Mem { .. }) => { let a = o.ea(&s.g); s.set_bytes(a, dv as u128, n); }
                 _ => {}
             }
-            if !r.chance(1, 6) {
+            let addr_uses_ad = f.ops.iter().any(|o| matches!(o, Op::Mem { base, index, .. }
+                if matches!(base, Some(0) | Some(2)) || matches!(index, Some((0, _)) | Some((2, _)))));
+            if !addr_uses_ad && !r.chance(1, 6) {
                 let signed = f.mnem == "idiv";
                 if sz == 8 {
                     let lo = s.g[0] & 0xff;
@@ -1104,6 +1111,9 @@ fn seed_names(it: &mut Interner) {
     for n in ["CF", "PF", "ZF", "SF", "OF", "DF"] { it.id(n); }
     for n in &R32[..8] { it.id(n); }
     for n in ["es_base", "cs_base", "ss_base", "ds_base", "fs_base", "gs_base"] { it.id(n); }
+    // temporaries of the instruction at CODE_AT: temp_0x<addr> = 52, temp_0x<addr>_<k> = 53 + k
+    it.id(&format!("temp_0x{:X}", CODE_AT));
+    for k in 0..4 { it.id(&format!("temp_0x{:X}_{}", CODE_AT, k)); }
 }
 enum Lifted {
     Ok(String, String), // cfg, successors
@@ -1183,15 +1193,25 @@ fn run_native(exe: &str, lines: &[String]) -> Vec<Cpu> {
                 res[id] = Cpu::Ok { next, rfl, g, x, diffs };
             }
             "SIG" => res[id] = Cpu::Sig(t[3].parse().unwrap()),
-            _ => res[id] = Cpu::Sig(-2),
+            _ => res[id] = Cpu::None, // worker crashed (e.g. the input state has a non-canonical rsp): no processor result
         }
     }
     res
 }
 
 // ---------------------------------------------------------------- known-finding classes (predicates on the input)
-fn kf_tags(_f: &Form, _s: &Sample) -> Vec<String> {
-    vec![]
+fn kf_tags(f: &Form, s: &Sample) -> Vec<String> {
+    let mut t = vec![];
+    // bt/bts/btr/btc with a memory base and a REGISTER bit offset outside [0, operand size): the processor
+    // addresses a bit string (another memory element), the lifter shifts the addressed element by the raw offset
+    if f.class == "bt-mem-reg" {
+        if let Some(Op::Reg(o)) = f.ops.get(1) {
+            let v = s.g[*o as usize] & mask(f.sz);
+            if v >= f.sz as u64 { t.push("kf:bt-mem-reg-offset-outside-operand".to_string()); }
+        }
+    }
+    if f.class == "nospec-shxd" { t.push("kf:shld-shrd".to_string()); }
+    t
 }
 
 fn zlist<I: IntoIterator<Item = String>>(it: I) -> String {
@@ -1285,6 +1305,12 @@ fn main() {
             bump("samples:cpu-result", ncpu_ok);
             bump("samples:cpu-fault-skipped", ncpu_sig);
             if spec { bump("samples:spec-vs-cpu", ncpu_ok); bump("encodings:with-spec", 1); } else { bump("encodings:cpu-only", 1); }
+            // same predicate as Isa/X86Mirror.mirror_instr: register destination, register/immediate source
+            let regimm = f.ops.iter().all(|o| !o.is_mem());
+            let mirrored = regimm && !f.ops.is_empty() && !matches!(f.ops[0], Op::Imm(_))
+                && ((f.class == "mov") || (f.class == "alu" && ["add", "sub", "cmp", "and", "or", "xor"].contains(&f.mnem.as_str()))
+                    || (f.class == "unary" && ["inc", "dec"].contains(&f.mnem.as_str())));
+            if mirrored { bump("encodings:mirror-syntactic-tie", 1); }
         }
         let mname = if f.mode == Mode::M64 { "amd64" } else { "x86" };
         let mut tags = vec![format!("mode:{}", mname), format!("class:{}", f.class), format!("lift:{}", lkind), format!("mnem:{}", f.mnem.split(' ').last().unwrap_or("")), format!("sz:{}", f.sz)];
@@ -1294,14 +1320,14 @@ fn main() {
         let descr = format!("{} [{}] {} -- {} samples ({} with processor result); lift: {}{}", mname, hexs(&f.bytes), f.text, it.samples.len(), ncpu_ok, lkind,
             if let Lifted::Mismatch(m) = &it.lifted { format!(" ({})", m) } else { String::new() });
         cases.push(Case {
-            coq: format!("(mkcase {} {} {} {} {} None {})", f.mode.coq(), CODE_AT, f.bytes.len(), f.coq, lcoq, coq_list(samples_coq)),
+            coq: format!("(mkcase {} {} {} {} {} (mirror_instr {} {} {}) {})", f.mode.coq(), CODE_AT, f.bytes.len(), f.coq, lcoq, f.mode.coq(), CODE_AT, f.coq, coq_list(samples_coq)),
             descr,
             tags,
             nontrivial: lkind == "accepted" && !it.samples.is_empty(),
             key: format!("{}:{}", mname, hexs(&f.bytes)),
         });
     }
-    let header = "From Coq Require Import ZArith List NArith.\nFrom Falcon Require Import Base.Res IL.Const IL.Expr IL.Func Isa.X86 Isa.X86Run Isa.C01Check.\nImport ListNotations.\nLocal Open Scope Z_scope.";
+    let header = "From Coq Require Import ZArith List NArith.\nFrom Falcon Require Import Base.Res IL.Const IL.Expr IL.Func Isa.X86 Isa.X86Run Isa.X86Mirror Isa.C01Check.\nImport ListNotations.\nLocal Open Scope Z_scope.";
     let ck = if args.extra.contains_key("diag") { "(fun c => (diag c, ck c))" } else { "ck" };
     if args.extra.contains_key("diag") {
         // development aid: print the per-sample codes instead of the verdicts
